@@ -2019,3 +2019,49 @@ func c16ContextReadOnly(c *Ctx, r *Report, rule string) {
 	}
 	r.Floor(rule, 3, "GetMatch, GetKey, json, array")
 }
+
+// c18OffsetPrecision (C18-h/offset-precision): a named format that carries a
+// numeric zone offset must carry it to the minute (-0700, -07:00, Z0700,
+// Z07:00): an hour-only offset (-07, Z07) prints India (+05:30) or Nepal
+// (+05:45) as +05, so what timeformat printed parses back to a different
+// instant. Evaluated from the constant values of the format table.
+func c18OffsetPrecision(c *Ctx, r *Report, rule string) {
+	init, p := c.pkgVarInit(stdlibPkg, "timeFormats")
+	cl := asCompositeLit(init)
+	if p == nil || cl == nil {
+		r.Undecided(rule, stdlibPkg+".timeFormats", "table", "-", "the named-format table was not found")
+		return
+	}
+	n := 0
+	for _, el := range cl.Elts {
+		kv, ok := el.(*ast.KeyValueExpr)
+		if !ok {
+			continue
+		}
+		name, okN := constString(p.TypesInfo, kv.Key)
+		layout, okL := constString(p.TypesInfo, kv.Value)
+		if !okN || !okL {
+			r.Undecided(rule, stdlibPkg+".timeFormats", exprStr(kv.Key), c.Pos(kv.Pos()), "entry is not a constant")
+			continue
+		}
+		// occurrences of an hour offset element
+		bad := ""
+		for i := 0; i+3 <= len(layout); i++ {
+			if layout[i:i+3] != "-07" && layout[i:i+3] != "Z07" {
+				continue
+			}
+			rest := layout[i+3:]
+			if strings.HasPrefix(rest, "00") || strings.HasPrefix(rest, ":00") {
+				continue
+			}
+			bad = layout[i : i+3]
+		}
+		if !strings.Contains(layout, "-07") && !strings.Contains(layout, "Z07") {
+			continue
+		}
+		n++
+		r.Check(bad == "", rule, stdlibPkg+".timeFormats", name, c.Pos(kv.Pos()), "table: the zone offset of the format is written to the minute",
+			fmt.Sprintf("the named format %s (%q) writes the zone offset as %q, hours only: zones with a 30 or 45 minute offset lose it, so parsing what timeformat printed gives a different instant", name, layout, bad))
+	}
+	r.Floor(rule, 4, "RFC822Z, RFC1123Z, RFC3339, RFC3339N, NGINX")
+}
